@@ -316,7 +316,7 @@ pub fn build(ver: u64, b: &Body) -> Option<Packet> {
             let mut es = Vec::new();
             for (f, op) in entries {
                 if *op > 255 { return None }
-                es.push(SubEntry::new(s(f)?, SubOpts::from_u8(*op as u8).ok()?).ok()?);
+                es.push(SubEntry::new(s(f)?, opts_via_setters(SubOpts::from_u8(*op as u8).ok()?, f.len() & 1 == 1)).ok()?);
             }
             if v5 {
                 let mut x = v5_0::GenericSubscribe::<Pid>::builder().packet_id(id).entries(es);
@@ -1018,4 +1018,15 @@ pub fn enum_parse_cases(maxlen: usize, out: &mut Vec<String>, st: &mut PkStats) 
             }
         }
     }
+}
+
+/// The same subscription options reached through the chainable setters, starting from options that differ from the
+/// wanted ones in every field (so that a setter which does not fully overwrite its field shows up in the built packet).
+fn opts_via_setters(o: SubOpts, variant: bool) -> SubOpts {
+    use mqtt::packet::RetainHandling;
+    let alt = |x: u8| -> u8 { match x { 0 => if variant { 1 } else { 2 }, 1 => 2, _ => 1 } };
+    let q = Qos::try_from(alt(o.qos() as u8)).unwrap_or(Qos::AtMostOnce);
+    let r = RetainHandling::try_from(alt(o.rh() as u8)).unwrap_or(RetainHandling::SendRetained);
+    SubOpts::new().set_qos(q).set_nl(!o.nl()).set_rap(!o.rap()).set_rh(r)
+        .set_qos(o.qos()).set_nl(o.nl()).set_rap(o.rap()).set_rh(o.rh())
 }
